@@ -25,7 +25,7 @@ def c17_stats(cases, model):
             if f[0] == "par" and len(f) == 7 and g[0] == "rest":
                 par["release=%s" % {"0": "channel", "1": "write-lock", "2": "read-lock"}.get(f[5], f[5])] += 1
                 par["with-concurrent-checks" if f[6] != "0" else "failures-only"] += 1
-                par["blocked-after" if g[3] == "1" else ("refused-before" if g[1] == "0" and f[4] != "0" else "open-after")] += 1
+                par["refused-before" if g[1] == "0" and f[4] != "0" else ("blocked-after" if g[3] == "1" else "open-after")] += 1
     return dict(verdicts=_verdict_stats(cases, model), ops=dict(ops), impl_outcomes=dict(kinds), par=dict(par),
                 distinct_delays=len(delays), max_case_len=max(lens or [0]),
                 mean_case_len=round(sum(lens) / max(1, len(lens)), 1))
